@@ -29,3 +29,45 @@ func LongChain(rng *vh.RNG, net *Net, n int) *Tree {
 	}
 	return t
 }
+
+// NewPreOakNet is a network on which the pre-Oak difficulty algorithm stays active for thousands
+// of blocks (retarget every 500 blocks from the timestamp of the block min(1000, height) back —
+// the only place the store's AncestorTimestamp walk decides anything), v1 blocks only.
+func NewPreOakNet(rng *vh.RNG) *Net {
+	net := newNet(rng, 60000, 61000, 3, false)
+	n := net.N
+	n.HardforkOak.Height = 50000
+	n.HardforkOak.FixHeight = 50000
+	n.HardforkASIC.Height = 50000
+	n.HardforkFoundation.Height = 50000
+	return net
+}
+
+// LongBranch appends n empty blocks, dt seconds apart, on top of block parent of t (whose
+// ancestry must be fully valid), mining sequentially on ONE node that was fed that ancestry.
+// It returns the id of the last block.
+func LongBranch(rng *vh.RNG, t *Tree, parent, n, dt int) int {
+	nd := t.Net.MustNode()
+	if anc := t.Ancestry(parent); len(anc) > 0 {
+		if err := nd.CM.AddBlocks(t.Get(anc)); err != nil {
+			panic("LongBranch: ancestry rejected: " + err.Error())
+		}
+	}
+	// a distinct miner address per branch keeps sibling v1 blocks with equal timestamps distinct
+	var miner types.Address
+	rng.Bytes(miner[:])
+	for i := 0; i < n; i++ {
+		cs := nd.CM.TipState()
+		blk := t.Net.assemble(cs, t.Blocks[parent].Block.Timestamp.Add(time.Duration(dt)*time.Second), miner, nil, nil, rng.U64())
+		if err := nd.CM.AddBlocks([]types.Block{blk}); err != nil {
+			panic("LongBranch: " + err.Error())
+		}
+		full := nd.CM.TipState()
+		b := &B{ID: len(t.Blocks), Block: blk, Parent: parent, Height: t.Blocks[parent].Height + 1, HdrOk: true, BodyOk: true,
+			V2: blk.V2 != nil, Work: WorkInt(full.TotalWork), Diff: WorkInt(full.Difficulty), State: full, Full: full}
+		t.Blocks = append(t.Blocks, b)
+		t.byHash[blk.ID()] = b.ID
+		parent = b.ID
+	}
+	return parent
+}
